@@ -263,9 +263,10 @@ def runRaw (st : St) (c : Nat) (keepConnack : Bool) (evs : List Ev) (pendAfter :
 /-- `race <a> <hex|close> <p> <hex>`: connection `a` sends its bytes (or its socket is closed) while
 connection `p` sends packets, nothing in between.  The model takes `a`'s events first; the line is
 the same for every interleaving as long as `a` ends up closed (what `a` received is then not
-compared) — the generators use it only that way. -/
+compared) — the generators use it only that way: a close, or bytes that are fatal at a packet
+boundary; on a mid-packet connection the event is a no-op on both sides. -/
 def handleRace (st : St) (a : Nat) (xa : Option Bytes) (p : Nat) (bp : Bytes) : St × String × String :=
-  if !st.m.alive a || !st.m.alive p || a == p || st.mid p then (st, "-", "-") else
+  if !st.m.alive a || !st.m.alive p || a == p || st.mid p || st.mid a then (st, "-", "-") else
   let (evsA, restA) := match xa with
     | none => ([Ev.close a], [])
     | some bs => let avail := st.pendOf a ++ bs; Mqtt.Model.Framing.postEvents ringSize a (avail.length + 1) avail
